@@ -209,8 +209,8 @@ PLANS = {
                        "after the last crash: octosql must still start, every database that resolved before must still run and answer with the previous or the new plugin version (the new one if the operation completed), "
                        "and `octosql plugin install` must bring every configured database to a runnable version"),
         "level_note": "trusted: kernel RLIMIT_FSIZE/SIGXFSZ semantics for torn writes, SIGKILL for crashes (process-kill model: the page cache survives; power-loss reordering of unsynced writes is not modelled); the HTTP transport is a file-serving stub (hook H5)",
-        "parts": [{"check": "c27", "kind": "proc", "script": "c27.py", "needs_plugin": True, "workers": 12, "quick": 228, "thorough": 8000}],
-        "rule": "each run draws (initial state, config, operation) = 60 templates, 1-2 crashes (point among those a clean run of the template passes, kill or tear:k); distinct = distinct (template, crash sequence) pairs",
+        "parts": [{"check": "c27", "kind": "proc", "script": "c27.py", "needs_plugin": True, "workers": 12, "quick": 246, "thorough": 9000}],
+        "rule": "each run draws (initial state, config, operation) = 72 templates, 1-2 crashes (point among those a clean run of the template passes, kill or tear:k); distinct = distinct (template, crash sequence) pairs",
         "components": {"real": ["octosql binary: cmd, plugins/manager, plugins/repository, archiver, plugins/executor (exec + gRPC over unix socket), test plugin built on the plugins SDK"],
                        "stub": ["HTTP transport (files)", "crash selection (hook H4 crash points read VERIF_CRASH)"]},
         "assumptions": ["crash points of hook H4 sit between all filesystem steps of the three code paths"],
